@@ -288,7 +288,7 @@ fn gen_session(rng: &mut Rng, no_twins: bool, c06: bool) -> Session {
     let k = if c06 { rng.range(2, 5) } else { *rng.pick(&[1usize, 1, 2, 2, 3, 3, 4, 5]) };
     let docs = match special_family(rng, &cfg) {
         // the unreliable-delivery property is not about depth: keep its (many-replica) sessions shallow
-        Some(d) if !(c06 && (d.iter().any(|x| x.root.depth() > 110) || d.len() > 5 || (d.iter().map(|x| x.root.count()).sum::<usize>() > 1500 && d[0].root.count() < 30_000))) => d,
+        Some(d) if !(c06 && (d.iter().any(|x| x.root.depth() > 140) || d.len() > 5 || (d.iter().map(|x| x.root.count()).sum::<usize>() > 1500 && d[0].root.count() < 30_000))) => d,
         _ => gen_history(rng, &cfg, k).1,
     };
     let very_deep = docs.iter().any(|x| x.root.depth() > 140);
